@@ -171,6 +171,17 @@ Theorem C17_impl_falsified_by_one :
     scalar_rel (fst (fst e)) (nth i xs fnan) (nth i ys fnan) eps rel = false ->
     beval FOps0 (env2 xs ys eps rel) (snd e) = false) C17_table.
 Proof. exact (table_falsified_by_one C17_table C17_number_by_number). Qed.
+(* ... implied by == (the derived PartialEq is the lane-by-lane f64 ==, C19): relative_eq for ALL floats (infinities included),
+   abs_diff_eq when the numbers are finite and eps >= 0 (approx's |inf - inf| <= eps is false: inherited verbatim) *)
+Theorem C17_impl_of_eq :
+  Forall (fun e => forall xs ys eps rel, length xs = snd (fst e) -> length ys = snd (fst e) ->
+    (forall p, In p (combine xs ys) -> feq (fst p) (snd p) = true) ->
+    match fst (fst e) with
+    | RRel => True
+    | RAbs => fle fzero eps = true /\ forall p, In p (combine xs ys) -> is_finite (fst p) = true /\ is_finite (snd p) = true
+    end ->
+    beval FOps0 (env2 xs ys eps rel) (snd e) = true) C17_table.
+Proof. exact (table_of_eq C17_table C17_number_by_number). Qed.
 (* the slice rule (Piecewise, PolyN) inherits symmetry from the element relation *)
 Theorem C17_slice_symmetric : forall (A : Type) (r : A -> A -> bool), (forall a b, r a b = r b a) ->
   forall x y : list A, slice_rel r x y = slice_rel r y x.
